@@ -16,6 +16,21 @@ spec/HandlerResolution.tla (nearest-ancestor handler resolution over the real cl
     predicted observable is compared with what the real functions do.  A Python transcription of
     the spec's recursive definitions is validated against TLC's output on all those DAGs and then
     used on larger random DAGs.
+(b') Handlers with context arguments.  Traversal.tla also models DAGTraverser.__call__ (memoised
+    recursion, explicit call stack, one action per self(node, **kwargs) call / per returning rule) for
+    rule tables whose rules take keyword arguments and pass different subsets of them to different
+    operands (jobs fn="dt": three rule tables, top-level keyword arguments, one traverser reused on two
+    expressions / two traversers sharing the cache dicts / two independent traversers, compress on
+    and off).  The model's cache key is (node, full ordered context); TLC checks that the memoised
+    result is the tree recursion in which the context travels down the tree (InvDt, InvDtCache) and
+    prints, per DAG, the results and the log of rule invocations (node class, context, result).
+    Both are compared with real DAGTraverser subclasses; the same rule tables realised the way
+    ufl does it for MultiFunctions (one MultiFunction object and one vcache/rcache pair per context,
+    context switches made by cutoff handlers calling map_expr_dag, cf. apply_restrictions.py) must
+    give the predicted results with every (node class, context) handled exactly once.  Jobs with a
+    deliberately weakened key (values only, names only, node only, sorted values) are run by TLC on
+    the same DAGs: the run is vacuous (machinery error) unless each of them differs from the tree
+    recursion somewhere, i.e. unless the judged inputs tell a full key from a weaker one.
 (c) Handler resolution: for every UFL class and handler-name sets drawn from its ancestors, the
     handler bound by MultiFunction / Transformer / DAGTraverser is compared with Resolve() of the
     TLA+ module evaluated by TLC on the exported class graph.
@@ -43,8 +58,8 @@ JAVA_OPTS = (
 )
 
 
-def J(fn, table="none", compress=False, mode="none"):
-    return {"fn": fn, "table": table, "compress": compress, "mode": mode}
+def J(fn, table="none", compress=False, mode="none", top=0, key="full"):
+    return {"fn": fn, "table": table, "compress": compress, "mode": mode, "top": top, "key": key}
 
 
 TRAV = [J("pre"), J("post"), J("cutpost"), J("upre"), J("upost"), J("cutupost"), J("hash")]
@@ -61,14 +76,40 @@ MAP10 = [
 MAP2 = [J("map", "renamenc", True, "rlist"), J("map", "constcut", False, "calls")]
 MAP4 = MAP2 + [J("map", "reuse", True, "calls"), J("map", "const", True, "list")]
 
+# DAGTraverser with keyword arguments: rule table x (traverser objects, compress, top-level kwargs)
+KW_TABLES = ["kwset", "kwadd", "kwfirst"]
+DT_MODES = ["reuse", "shared", "fresh"]
+WEAK_KEYS = ["values", "names", "node", "valsorted"]
+DT9 = [
+    J("dt", "kwset", True, "reuse", 0), J("dt", "kwset", False, "shared", 1), J("dt", "kwset", True, "fresh", 2),
+    J("dt", "kwadd", True, "reuse", 3), J("dt", "kwadd", True, "shared", 0), J("dt", "kwadd", False, "fresh", 1),
+    J("dt", "kwfirst", False, "reuse", 2), J("dt", "kwfirst", True, "shared", 3), J("dt", "kwfirst", True, "reuse", 0),
+]  # fmt: skip
+ALLDT = [J("dt", t, c, m, top) for t in KW_TABLES for m in DT_MODES for c in (True, False) for top in range(4)]
+
+
+def weak(job, key):
+    """The same job on the model with a weakened memoisation key (never bound to the code)."""
+    return dict(job, key=key)
+
+
+# each weakened key on a job that is also run (and judged) with the full key
+WEAK4 = [weak(DT9[0], "values"), weak(DT9[4], "names"), weak(DT9[0], "node"), weak(DT9[8], "valsorted")]
+WEAK12 = [weak(j, k) for k in WEAK_KEYS for j in (DT9[0], DT9[4], DT9[8])]
+
 INVS = [
     "InvPre", "InvPost", "InvCutPost", "InvUPre", "InvUPost", "InvCutUPost", "InvNeverBelowCut",
-    "InvHash", "InvMap", "InvMapCache", "InvNoKeyError", "InvStructure", "InvSteps", "InvType",
+    "InvHash", "InvMap", "InvMapCache", "InvDt", "InvDtCache", "InvNoKeyError", "InvStructure", "InvSteps", "InvType",
 ]  # fmt: skip
 
 
 def job_name(j):
-    return j["fn"] if j["fn"] != "map" else f"map:{j['table']}:{'compress' if j['compress'] else 'nocompress'}:{j['mode']}"
+    c = "compress" if j["compress"] else "nocompress"
+    if j["fn"] == "map":
+        return f"map:{j['table']}:{c}:{j['mode']}"
+    if j["fn"] == "dt":
+        return f"dt:{j['table']}:{c}:{j['mode']}:top{j['top']}" + ("" if j["key"] == "full" else ":key-" + j["key"])
+    return j["fn"]
 
 
 # ==========================================================================================
@@ -166,6 +207,113 @@ def rec_apply(d, table, n):
     return [lab, [rec_apply(d, table, o) for o in d.ops(n)]]
 
 
+# ---- rule tables with keyword arguments (names 1 = "ka", 2 = "kb"; a context is a list of [name, value]) ----
+KA, KB = 1, 2
+KW_NAMES = {KA: "ka", KB: "kb"}
+KW_IDS = {v: k for k, v in KW_NAMES.items()}
+
+
+def kw_get(kw, nm):
+    return next((v for k, v in kw if k == nm), 0)
+
+
+def kw_upd(kw, nm, v):
+    if any(k == nm for k, _ in kw):
+        return [[k, v if k == nm else x] for k, x in kw]
+    return [list(p) for p in kw] + [[nm, v]]
+
+
+def kw_children(table, lab, k):
+    return [1] if table == "kwfirst" and lab == A_LIST else list(range(1, k + 1))
+
+
+def kw_child(table, lab, kw, i, k):
+    if lab != B_MAPPING:
+        return kw
+    if table == "kwset":
+        return [[KA, 1]] if i % 2 == 1 else [[KB, 1]]
+    if table == "kwadd":
+        return kw_upd(kw, KA, kw_get(kw, KA) + 1) if i % 2 == 1 else kw_upd(kw, KB, kw_get(kw, KB) + 1)
+    return [[KA, i], [KB, k + 1 - i]]
+
+
+def leaf_enc(lab, kw):
+    a, b = kw_get(kw, KA), kw_get(kw, KB)
+    return lab if a == 0 and b == 0 else 10000 * lab + 100 * a + b
+
+
+def cls_term(c):
+    return [c[0], [cls_term(x) for x in c[1]]]
+
+
+def rec_apply_kw(d, table, n, kw):
+    """RecApplyKw: the rules applied recursively to the tree, the context travelling down."""
+    lab, ops = d.lab(n), d.ops(n)
+    if lab < 10:
+        return [leaf_enc(lab, kw), []]
+    k = len(ops)
+    todo = kw_children(table, lab, k)
+    return [lab, [rec_apply_kw(d, table, ops[i - 1], kw_child(table, lab, kw, i, k)) if i in todo else cls_term(d.cls(ops[i - 1])) for i in range(1, k + 1)]]
+
+
+def top_kw(top, i):
+    if top == 0:
+        return []
+    if top == 1:
+        return [[KB, 1]] if i == 1 else [[KA, 1]]
+    if top == 2:
+        return [[KA, 1], [KB, 2]] if i == 1 else [[KB, 2], [KA, 1]]
+    return [[KA, 2], [KB, 1]] if i == 1 else [[KA, 1], [KB, 2]]
+
+
+def dt_exprs(n):
+    return [1, 1] if n == 1 else [n - 1, n]
+
+
+def key_of(key, kw):
+    if key == "full":
+        return tuple((k, v) for k, v in kw)
+    if key == "values":
+        return tuple(v for _, v in kw)
+    if key == "names":
+        return tuple(k for k, _ in kw)
+    if key == "node":
+        return ()
+    return tuple(sorted(v for _, v in kw))
+
+
+def dt_model(d, job):
+    """DtFor/DtStep: the memoised recursion as coded, on structural classes (results are terms)."""
+    table, calls, rterms = job["table"], [], []
+    cache = {}
+
+    def call(n, kw):
+        ck = (d.cls(n), key_of(job["key"], kw))
+        if ck in cache:
+            return cache[ck]
+        lab, ops = d.lab(n), d.ops(n)
+        k = len(ops)
+        vals = {p: call(ops[p - 1], kw_child(table, lab, kw, p, k)) for p in kw_children(table, lab, k)}
+        if lab < 10:
+            t = [leaf_enc(lab, kw), []]
+        else:
+            t = [lab, [vals[i] if i in vals else cls_term(d.cls(ops[i - 1])) for i in range(1, k + 1)]]
+        calls.append([cls_term(d.cls(n)), [list(p) for p in kw], t])
+        cache[ck] = t
+        return t
+
+    for i, e in enumerate(dt_exprs(d.n), 1):
+        if job["mode"] == "fresh" and i > 1:
+            cache = {}
+        rterms.append(call(e, top_kw(job["top"], i)))
+    return {"rterms": rterms, "calls": calls}
+
+
+def norm_dt(d, pred):
+    """A dt result line of TLC with the input nodes of the rule log replaced by their classes."""
+    return dict(pred, calls=[[cls_term(d.cls(v)), kw, t] for v, kw, t in pred["calls"]])
+
+
 def map_exprs(n, mode):
     """The expressions lists of the calls of a map job."""
     if mode == "list":
@@ -237,6 +385,13 @@ def property_failures(d, job, obs):
         vs = [c[0] for c in obs["calls"]]
         if any(not (1 <= v <= n) for v in vs) or len({cls(v) for v in vs}) != len(vs):
             bad.append("InvMapCache:handler-once-per-class")
+    elif fn == "dt":  # obs: normalised (rule log by class)
+        want = [rec_apply_kw(d, job["table"], e, top_kw(job["top"], i)) for i, e in enumerate(dt_exprs(n), 1)]
+        if obs["rterms"] != want:
+            bad.append("InvDt:recursive-tree-application")
+        keys = [json.dumps(c[:2]) for c in obs["calls"]]
+        if job["mode"] != "fresh" and len(set(keys)) != len(keys):
+            bad.append("InvDtCache:rule-once-per-class-and-context")
     return bad
 
 
@@ -374,7 +529,106 @@ class Env:
                 return self.run.z
 
         self.trs = {"reuse": TrBase, "renamenc": TrRename, "const": TrConst}
-        _ = env
+
+        # ---- rules with keyword arguments (KwChildren / KwChild / KwCombine of Traversal.tla) ----
+        from ufl.corealg.map_dag import map_expr_dag
+
+        self.map_expr_dag = map_expr_dag
+
+        def kw_leaf(o, kw):
+            ka, kb = kw.get("ka", 0), kw.get("kb", 0)
+            if not (ka or kb):
+                return o
+            return Coefficient(env.V, count=LEAF_BASE + 10000 * (o.count() - LEAF_BASE) + 100 * ka + kb)
+
+        def reuse_eq(o, new):
+            if all(a == b for a, b in zip(new, o.ufl_operands)):
+                return o
+            return o._ufl_expr_reconstruct_(*new)
+
+        def mapping_kw(table, kw, i, k):
+            """Keyword arguments for operand i (0-based) of an ExprMapping with k operands."""
+            if table == "kwset":
+                return {"ka": 1} if i % 2 == 0 else {"kb": 1}
+            if table == "kwadd":
+                return {**kw, "ka": kw.get("ka", 0) + 1} if i % 2 == 0 else {**kw, "kb": kw.get("kb", 0) + 1}
+            return {"ka": i + 1, "kb": k - i}
+
+        def make_kwdt(table):
+            class KDT(DAGTraverser):
+                def __init__(self, run, **init):
+                    DAGTraverser.__init__(self, **init)
+                    self.run = run
+
+                @singledispatchmethod
+                def process(self, o, **kw):
+                    raise AssertionError("no rule")
+
+                @process.register(Coefficient)
+                def _(self, o, **kw):
+                    return self.run.logkw(o, kw, kw_leaf(o, kw))
+
+                if table == "kwset":
+
+                    @process.register(ExprList)
+                    def _(self, o, **kw):
+                        return self.run.logkw(o, kw, self.reuse_if_untouched(o, **kw))
+
+                if table == "kwadd":
+
+                    @process.register(ExprList)
+                    @DAGTraverser.postorder
+                    def _(self, o, *ops, **kw):
+                        return self.run.logkw(o, kw, reuse_eq(o, ops))
+
+                if table == "kwfirst":
+
+                    @process.register(ExprList)
+                    @DAGTraverser.postorder_only_children([0])
+                    def _(self, o, first, **kw):
+                        return self.run.logkw(o, kw, reuse_eq(o, (first, *o.ufl_operands[1:])))
+
+                @process.register(ExprMapping)
+                def _(self, o, **kw):
+                    k = len(o.ufl_operands)
+                    new = [self(op, **mapping_kw(table, kw, i, k)) for i, op in enumerate(o.ufl_operands)]
+                    return self.run.logkw(o, kw, reuse_eq(o, new))
+
+            return KDT
+
+        self.kwdts = {t: make_kwdt(t) for t in KW_TABLES}
+
+        # the same rules as MultiFunctions: the context is held by the MultiFunction object, one object
+        # and one (vcache, rcache) pair per context; a context switch is a cutoff handler that calls
+        # map_expr_dag with the object and the caches of the new context (as apply_restrictions.py does)
+        class CtxFamily:
+            def __init__(self, run, table, compress):
+                self.run, self.table, self.compress = run, table, compress
+                self.mfs, self.vcaches, self.rcaches = {}, {}, {}
+
+            def apply(self, kw, e):
+                key = tuple(kw.items())
+                if key not in self.mfs:
+                    self.mfs[key], self.vcaches[key], self.rcaches[key] = CtxMF(self, dict(kw)), {}, {}
+                return map_expr_dag(self.mfs[key], e, compress=self.compress, vcache=self.vcaches[key], rcache=self.rcaches[key])
+
+        class CtxMF(MultiFunction):
+            def __init__(self, fam, kw):
+                MultiFunction.__init__(self)
+                self.fam, self.kw = fam, kw
+
+            def coefficient(self, o):
+                return self.fam.run.logkw(o, self.kw, kw_leaf(o, self.kw))
+
+            def expr_list(self, o, *ops):
+                return self.fam.run.logkw(o, self.kw, MultiFunction.reuse_if_untouched(self, o, *ops))
+
+            def expr_mapping(self, o):  # takes only `o`: a cutoff type, it handles its operands itself
+                k = len(o.ufl_operands)
+                new = [self.fam.apply(mapping_kw(self.fam.table, self.kw, i, k), op) for i, op in enumerate(o.ufl_operands)]
+                return self.fam.run.logkw(o, self.kw, reuse_eq(o, new))
+
+        self.CtxFamily = CtxFamily
 
 
 class Run:
@@ -400,6 +654,7 @@ class Run:
         self.next = n + 3
         self.keep = []
         self.calls = []
+        self.kwcalls = []
 
     def name(self, x):
         return self.names.get(id(x), -1)
@@ -410,6 +665,11 @@ class Run:
             self.next += 1
             self.keep.append(r)
         self.calls.append([self.name(o), [self.name(x) for x in ops], self.name(r)])
+        return r
+
+    def logkw(self, o, kw, r):
+        """A rule with keyword arguments returned r for node o: [class of o, context as passed, term of r]."""
+        self.kwcalls.append([self.term(o), [[KW_IDS[k], v] for k, v in kw.items()], self.term(r)])
         return r
 
     def term(self, x):
@@ -474,6 +734,20 @@ def run_real(env, d, job):
             obs["res"] = [r.name(x) for x in res]
             obs["rterms"] = [r.term(x) for x in res]
             obs["calls"] = r.calls
+        elif fn == "dt":
+            if job["key"] != "full":
+                raise MachineryError("jobs with a weakened key exist in the model only")
+            klass, init = env.kwdts[job["table"]], {"compress": job["compress"]}
+            shared = {"visited_cache": {}, "result_cache": {}}
+            dt, res = None, []
+            for i, e in enumerate(dt_exprs(d.n), 1):
+                if job["mode"] == "shared":
+                    dt = klass(r, **init, **shared)
+                elif job["mode"] == "fresh" or dt is None:
+                    dt = klass(r, **init)
+                res.append(dt(r.objs[e], **{KW_NAMES[k]: v for k, v in top_kw(job["top"], i)}))
+            obs["rterms"] = [r.term(x) for x in res]
+            obs["calls"] = r.kwcalls
         else:
             raise MachineryError(f"unknown fn {fn}")
     except MachineryError:
@@ -492,6 +766,24 @@ def run_dagtraverser(env, d, table):
     return [r.term(dt(r.objs[e])) for e in exprs], dt.ncalls
 
 
+def run_ctxmf(env, d, job):
+    """The rule table of a dt job as a family of MultiFunctions (one per context) under map_expr_dag."""
+    r = Run(env, d)
+    fam = env.CtxFamily(r, job["table"], job["compress"])
+    res = [fam.apply({KW_NAMES[k]: v for k, v in top_kw(job["top"], i)}, r.objs[e]) for i, e in enumerate(dt_exprs(d.n), 1)]
+    return [r.term(x) for x in res], r.kwcalls
+
+
+def ctxmf_failures(pred, terms, calls):
+    """pred: normalised dt prediction (mode reuse).  Results, and every (class, context) handled exactly once."""
+    bad = []
+    if terms != pred["rterms"]:
+        bad.append("result")
+    if sorted(json.dumps(c) for c in calls) != sorted(json.dumps(c) for c in pred["calls"]):
+        bad.append("handler-calls")
+    return bad
+
+
 def run_transformer(env, d, table):
     """Transformer.visit (tree recursion) with the same rules; result terms for [N-1, N]."""
     r = Run(env, d)
@@ -501,11 +793,12 @@ def run_transformer(env, d, table):
 
 
 FIELDS = ("out", "leaves", "res", "calls", "rterms", "fin")
+DT_FIELDS = ("rterms", "calls")  # dt jobs: structural observables only (pred normalised by norm_dt)
 
 
-def compare(pred, obs):
+def compare(pred, obs, fields=FIELDS):
     """Fields of the spec's prediction that the real behaviour does not reproduce."""
-    bad = [f for f in FIELDS if pred.get(f) != obs.get(f)]
+    bad = [f for f in fields if pred.get(f) != obs.get(f)]
     if "exception" in obs:
         bad.append("exception")
     return bad
@@ -521,6 +814,19 @@ def conform_dag(env, doc, jobs, acc, selftest=False):
     if nontrivial:
         acc["keys"].append(d.key())
     for job, pred in zip(jobs, doc["results"]):
+        fields = FIELDS
+        if job["fn"] == "dt":
+            fields = DT_FIELDS
+            pred = norm_dt(d, pred)
+            sim = dt_model(d, job)
+            if any(sim[f] != pred[f] for f in DT_FIELDS):
+                acc["machinery"].append(f"dt_model disagrees with TLC on dag {d.key()} job {job_name(job)}")
+                continue
+            if job["key"] != "full":
+                # the model with a weakened key: does this DAG tell it from the tree recursion?
+                want = [rec_apply_kw(d, job["table"], e, top_kw(job["top"], i)) for i, e in enumerate(dt_exprs(d.n), 1)]
+                acc["weak"][job["key"]] = acc["weak"].get(job["key"], 0) + (pred["rterms"] != want)
+                continue
         # 1. the Python transcription of the recursive definitions agrees with TLC
         tf = property_failures(d, job, pred)
         if tf:
@@ -529,11 +835,15 @@ def conform_dag(env, doc, jobs, acc, selftest=False):
         # 2. the real code reproduces the predicted behaviour
         obs = run_real(env, d, job)
         acc["behaviours"] += 1
-        acc["evals"] += len(FIELDS)
-        bad = compare(pred, obs)
+        acc["evals"] += len(fields)
+        bad = compare(pred, obs, fields)
+        if job["fn"] == "dt":
+            acc["dtkw"] += 1
+            if len({json.dumps(c[1]) for c in pred["calls"]}) > 1:
+                acc["kwkeys"].append(f"{d.key()}|{job['table']}|{job['top']}")
         if bad:
             pf = property_failures(d, job, obs) if "exception" not in obs else ["exception"]
-            fp = f"C19:{job_name(job)}:{'+'.join(bad)}" + (":property:" + "+".join(pf) if pf else ":identity-only")
+            fp = f"C19:{job_name(job)}:{'+'.join(bad)}" + (":property:" + "+".join(pf) if pf else ":rule-log-only" if job["fn"] == "dt" else ":identity-only")
             acc["violations"].append(
                 (
                     fp,
@@ -542,6 +852,23 @@ def conform_dag(env, doc, jobs, acc, selftest=False):
                     {"kind": "behaviour", "dag": doc["dag"], "job": job, "predicted": pred},
                 )
             )
+        # 2'. the same rules as one MultiFunction + cache pair per context under map_expr_dag
+        if job["fn"] == "dt" and job["mode"] == "reuse" and job["table"] != "kwfirst":
+            try:
+                terms, calls = run_ctxmf(env, d, job)
+                cbad = ctxmf_failures(pred, terms, calls)
+            except Exception as e:  # noqa: BLE001
+                terms, calls, cbad = f"{type(e).__name__}: {e}", [], ["exception"]
+            acc["evals"] += 2
+            acc["ctxmf"] += 1
+            if cbad:
+                acc["violations"].append(
+                    (
+                        f"C19:ctx-multifunction:{job['table']}:{'+'.join(cbad)}",
+                        f"map_expr_dag with one MultiFunction and cache pair per context [{job_name(job)}] on dag {d.key()}: terms {terms} handler calls {calls}; spec {pred['rterms']} {pred['calls']}",
+                        {"kind": "ctxmf", "dag": doc["dag"], "job": job, "predicted": {f: pred[f] for f in DT_FIELDS}},
+                    )
+                )
         # 3. DAGTraverser with the same rules gives the recursive-tree result
         if job["fn"] == "map" and job["compress"] and job["table"] in env.dts and (job["mode"] == "list" or (job["mode"] == "calls" and d.n > 1)):
             try:
@@ -574,6 +901,8 @@ def conform_dag(env, doc, jobs, acc, selftest=False):
                 )
     if len(acc["samples"]) < 2 and nontrivial and d.n >= 3:
         acc["samples"].append({"dag": d.key(), "jobs": {job_name(j): p["out"] or p["res"] for j, p in zip(jobs[:8], doc["results"][:8])}})
+        kwj = [(j, p) for j, p in zip(jobs, doc["results"]) if j["fn"] == "dt" and j["key"] == "full"][:1]
+        acc["samples"][-1]["jobs"].update({job_name(j): p["rterms"] for j, p in kwj})
 
 
 # ==========================================================================================
@@ -611,6 +940,18 @@ def tlc_summary(res):
     }  # fmt: skip
 
 
+def tlc_docs_with_kw(r, k):
+    """selftest: DAG lines (kept by shard_task) whose k-th job logged a rule call with a non-empty context."""
+    return [x for x in r.get("kw_docs", []) if any(c[1] for c in x["results"][k]["calls"])]
+
+
+def new_acc():
+    return {
+        "dags": 0, "behaviours": 0, "evals": 0, "dagtraverser": 0, "dtkw": 0, "ctxmf": 0, "keys": [], "kwkeys": [],
+        "weak": {}, "violations": [], "machinery": [], "samples": [],
+    }  # fmt: skip
+
+
 def shard_task(args):
     """Worker: one TLC run of Traversal.tla (one shard of one configuration) + conformance of its DAGs."""
     c, shard, workers, selftest = args
@@ -620,7 +961,7 @@ def shard_task(args):
         deadlock=True, workers=workers, timeout=1500, env={"JAVA_TOOL_OPTIONS": JAVA_OPTS},
     )  # fmt: skip
     out = {"cfg": c["name"], "shard": shard, "tlc": tlc_summary(res), "trace": None, "tail": "", "t_tlc": time.time() - t0}
-    acc = {"dags": 0, "behaviours": 0, "evals": 0, "dagtraverser": 0, "keys": [], "violations": [], "machinery": [], "samples": []}
+    acc = new_acc()
     out["acc"] = acc
     if res.outcome in ("invariant", "deadlock", "property"):
         out["trace"] = [(a, s) for a, s in res.trace[-1:]]
@@ -631,6 +972,7 @@ def shard_task(args):
     env = Env.get()
     docs = tlc.decode_prints(res)
     out["first_doc"] = next((x for x in docs if len(x["dag"]) >= 3 and Dag(x["dag"]).nontrivial()), docs[0] if docs else None)
+    out["kw_docs"] = [x for x in docs if len(x["dag"]) == 2 and x["dag"][1]["lab"] == B_MAPPING][:4]  # for --selftest
     for doc in docs:
         conform_dag(env, doc, c["jobs"], acc)
     out["t_all"] = time.time() - t0
@@ -669,12 +1011,12 @@ def configs(tier):
     """nshards: the DAGs of a configuration are partitioned by ShardOf; `shards` (default: all) are run."""
     if tier == "quick":
         return [
-            dict(name="n1-3:all-tables", nmin=1, nmax=3, arity=2, jobs=TRAV + MAP10, nshards=1, connected=False, workers=3),
-            dict(name="n4:connected", nmin=4, nmax=4, arity=2, jobs=TRAV + MAP2[:1], nshards=3, connected=True, workers=3),
+            dict(name="n1-3:all-tables", nmin=1, nmax=3, arity=2, jobs=TRAV + MAP10 + DT9 + WEAK4, nshards=1, connected=False, workers=3),
+            dict(name="n4:connected", nmin=4, nmax=4, arity=2, jobs=TRAV + MAP2[:1] + [DT9[3]], nshards=3, connected=True, workers=3),
         ]
     return [
-        dict(name="n1-3:every-map-job", nmin=1, nmax=3, arity=2, jobs=TRAV + ALLMAP, nshards=1, connected=False, workers=3),
-        dict(name="n4:all-tables", nmin=4, nmax=4, arity=2, jobs=TRAV + MAP10, nshards=4, connected=False, workers=3),
+        dict(name="n1-3:every-map-job", nmin=1, nmax=3, arity=2, jobs=TRAV + ALLMAP + ALLDT + WEAK12, nshards=1, connected=False, workers=3),
+        dict(name="n4:all-tables", nmin=4, nmax=4, arity=2, jobs=TRAV + MAP10 + DT9[:6], nshards=4, connected=False, workers=3),
         dict(name="n4:arity3", nmin=4, nmax=4, arity=3, jobs=TRAV + MAP2[:1], nshards=8, connected=False, workers=3),
         # the tree traversals (pre/post/cutoff_post) are exhausted above incl. arity 3; at 5 nodes only the
         # DAG-aware functions are run
@@ -901,19 +1243,40 @@ def random_dag(rng, n, arity):
     return nodes
 
 
+def dt_extra_failures(env, d, job, obs):
+    """Larger DAGs: the rule log against the memoised recursion of the model (dt_model, validated
+    against TLC on every TLC DAG), and the MultiFunction-per-context realisation of the same rules."""
+    pf = []
+    sim = dt_model(d, job)
+    if obs["calls"] != sim["calls"]:
+        pf.append("InvDtCache:rule-log")
+    if job["mode"] == "reuse" and job["table"] != "kwfirst":
+        try:
+            cbad = ctxmf_failures(sim, *run_ctxmf(env, d, job))
+        except Exception as e:  # noqa: BLE001
+            cbad = [f"exception-{type(e).__name__}"]
+        pf += ["ctx-multifunction:" + b for b in cbad]
+    return pf
+
+
 def big_dags(ctx, env, count):
     rng = random.Random(ctx.seed * 104729 + 1919)
     jobs = TRAV + [J("map", t, c, m) for t, c, m in (("reuse", True, "list"), ("renamenc", True, "rlist"), ("rename", False, "calls"), ("const", False, "list"), ("constcut", True, "calls"))]
+    kwjobs = [J("dt", t, c, m, top) for t, c, m, top in (("kwset", True, "reuse", 1), ("kwadd", True, "reuse", 2), ("kwadd", False, "shared", 3), ("kwfirst", True, "fresh", 0))]
     for _ in range(count):
         nodes = random_dag(rng, rng.randint(6, 10), 3)
         d = Dag(nodes)
         ctx.count("python_transcription_dags")
         if d.nontrivial():
             ctx.distinct("big|" + d.key())
-        for job in jobs:
+        for job in jobs + kwjobs:
             obs = run_real(env, d, job)
             ctx.evaluated()
             pf = ["exception:" + obs["exception"]] if "exception" in obs else property_failures(d, job, obs)
+            if job["fn"] == "dt" and not pf:
+                pf += dt_extra_failures(env, d, job, obs)
+                if len({json.dumps(c[1]) for c in obs["calls"]}) > 1:
+                    ctx.distinct(f"bigkw|{d.key()}|{job['table']}|{job['top']}")
             if job["fn"] in ("pre", "upre") and "exception" not in obs:
                 if obs["leaves"] != [x for x in obs["out"] if d.lab(x) < 10]:
                     pf.append("terminals-filter")
@@ -937,10 +1300,12 @@ def handle_model_failure(ctx, env, r):
         raise MachineryError(f"TLC {r['cfg']} shard {r['shard']}: {t['outcome']} {t['violated']} without a trace")
     st = tlc.parse_state(r["trace"][-1][1])
     nodes = [{"lab": x["lab"], "ops": list(x["ops"])} for x in st["dag"]]
-    job = {k: st["jrec"][k] for k in ("fn", "table", "compress", "mode")}
+    job = {k: st["jrec"][k] for k in ("fn", "table", "compress", "mode", "top", "key")}
     d = Dag(nodes)
     if t["outcome"] != "invariant":
         raise MachineryError(f"TLC {r['cfg']}: {t['outcome']} on dag {d.key()} job {job_name(job)} (model does not terminate cleanly)")
+    if job["key"] != "full":
+        raise MachineryError(f"TLC {r['cfg']}: {t['violated']} on a weakened-key job {job_name(job)}, dag {d.key()}")
     obs = run_real(env, d, job)
     pf = ["exception:" + obs["exception"]] if "exception" in obs else property_failures(d, job, obs)
     if pf:
@@ -958,7 +1323,7 @@ def handle_model_failure(ctx, env, r):
 def liveness_tlc():
     c = dict(nmin=1, nmax=3, arity=2, nshards=1, connected=False)
     return tlc.run(
-        "Traversal", traversal_cfg(c, 0, emit=False, liveness=True), mc_text=traversal_mc(TRAV + MAP2), mc_name="MC_Traversal",
+        "Traversal", traversal_cfg(c, 0, emit=False, liveness=True), mc_text=traversal_mc(TRAV + MAP2 + [DT9[1], DT9[8]]), mc_name="MC_Traversal",
         deadlock=True, workers=2, timeout=900, env={"JAVA_TOOL_OPTIONS": JAVA_OPTS},
     )  # fmt: skip
 
@@ -973,11 +1338,18 @@ def run(ctx, args):
         "is counted as distinct non-trivial when some node is used twice or two distinct reachable nodes are "
         "structurally equal; a dispatch case when the nearest defining ancestor is a proper ancestor. Random "
         "larger DAGs (6-10 nodes, arity <= 3) are checked against the Python transcription of the spec's "
-        "recursive definitions, itself compared with TLC on every TLC DAG."
+        "recursive definitions, itself compared with TLC on every TLC DAG. Jobs fn=dt: DAGTraverser subclasses "
+        "whose rules take keyword arguments (rule table kwset|kwadd|kwfirst x one traverser reused on the two "
+        "roots | two traversers sharing the cache dicts | two independent traversers x compress x top-level "
+        "keyword arguments); results and the log of rule invocations (node class, ordered context, result) are "
+        "compared with the model whose cache key is (node, full context), and the same rules as one MultiFunction "
+        "+ vcache/rcache per context under map_expr_dag must give the same results with each (class, context) "
+        "handled once. A dt case is counted as distinct non-trivial when rules ran under at least two contexts."
     )
     ctx.assume("expressions are finite acyclic ufl expression DAGs whose == / hash are structural (ufl.exprequals), including its documented side effect that a successful == between distinct equal operators makes them share one operand tuple")
     ctx.assume("sibling order is not part of the property: pre_traversal, post_traversal and the cutoff variants visit operands right-to-left, unique_post_traversal left-to-right; the spec's recursive definitions use the as-coded sibling order and the parent/child order is checked separately")
     ctx.assume("handler tables are MultiFunction subclasses: reuse_if_untouched everywhere, rename of one terminal (as cutoff and as post handler), constant result for one operator type (post handler and cutoff handler); traversal `visited` arguments are left at their default")
+    ctx.assume("context arguments: DAGTraverser.__call__(node, **kwargs) accepts keyword arguments only (no positional context in this version); MultiFunction / map_expr_dags pass no context to handlers, so a context is one MultiFunction object with its own vcache/rcache (the pattern of apply_restrictions.py / remove_component_tensors.py). Keyword values are small ints (hashable, == is identity of value); the order of the keywords is part of the as-coded cache key (two orders of the same keywords are two entries with equal results), the model keeps it")
     ctx.assume("nearest ancestor = first class of the C3 linearisation of the UFL class graph (checked equal to __mro__ restricted to UFL types) that defines a handler; Transformer predefines `terminal`; BaseForm types (not Expr) are reported separately")
     ctx.assume("CPython set/dict lookups call stored_key.__eq__(probe) only for distinct objects with equal hash (identity is tested first)")
 
@@ -1010,6 +1382,7 @@ def run(ctx, args):
     print(f"[C19] {len(results)} TLC shard runs + conformance done at {time.time() - t0:.1f}s", flush=True)
 
     per_cfg = {}
+    weak_seen = {j["key"]: 0 for c in cfgs for j in c["jobs"] if j["key"] != "full"}
     for r in results:
         t = r["tlc"]
         ctx.add_tlc(SimpleNamespace(**t))
@@ -1029,8 +1402,14 @@ def run(ctx, args):
         ctx.evaluated(acc["evals"])
         ctx.count("tlc_dags_compared", acc["dags"])
         ctx.count("dagtraverser_runs", acc["dagtraverser"])
+        ctx.count("dagtraverser_kwargs_behaviours", acc["dtkw"])
+        ctx.count("multifunction_per_context_runs", acc["ctxmf"])
+        for k, v in acc["weak"].items():
+            weak_seen[k] = weak_seen.get(k, 0) + v
         for k in acc["keys"]:
             ctx.distinct("dag|" + k)
+        for k in acc["kwkeys"]:
+            ctx.distinct("kw|" + k)
         for s in acc["samples"]:
             ctx.sample(s)
         if selftest:
@@ -1040,7 +1419,7 @@ def run(ctx, args):
             doc = json.loads(json.dumps(doc))
             seq = doc["results"][k]["out"]
             doc["results"][k]["out"] = seq[::-1] if len(seq) > 1 else seq + [1]
-            acc2 = {"dags": 0, "behaviours": 0, "evals": 0, "dagtraverser": 0, "keys": [], "violations": [], "machinery": [], "samples": []}
+            acc2 = new_acc()
             conform_dag(env, doc, jobs, acc2)
             # the corrupted prediction contradicts the transcription (machinery) — bypass it to show
             # that the comparison with the real code rejects it as well
@@ -1049,6 +1428,21 @@ def run(ctx, args):
             if not (rejected and (acc2["machinery"] or acc2["violations"])):
                 raise MachineryError("selftest: a corrupted predicted visit sequence was accepted")
             print(f"selftest: corrupted upost prediction {doc['results'][k]['out']} rejected (real {run_real(env, d, jobs[k])['out']})")
+            # a dt prediction whose context log has lost a keyword name (what a value-only key would give)
+            k = next(i for i, j in enumerate(jobs) if j["fn"] == "dt" and j["key"] == "full")
+            doc = next((x for x in tlc_docs_with_kw(r, k)), None)
+            if doc is None:
+                raise MachineryError("selftest: no dt prediction with a non-empty context")
+            doc = json.loads(json.dumps(doc))
+            d = Dag(doc["dag"])
+            call = next(c for c in doc["results"][k]["calls"] if c[1])
+            call[1][0][0] = KB if call[1][0][0] == KA else KA
+            acc2 = new_acc()
+            conform_dag(env, doc, jobs, acc2)
+            rejected = bool(compare(norm_dt(d, doc["results"][k]), run_real(env, d, jobs[k]), DT_FIELDS))
+            if not (rejected and (acc2["machinery"] or acc2["violations"])):
+                raise MachineryError("selftest: a corrupted predicted rule log (keyword name) was accepted")
+            print(f"selftest: corrupted dt rule log (keyword name swapped in {call}) rejected")
         for fp, what, rep in acc["violations"]:
             ctx.violation(fp, what, rep)
     if selftest:
@@ -1056,6 +1450,13 @@ def run(ctx, args):
             raise MachineryError("selftest: a corrupted dispatch prediction was accepted")
         print(f"selftest: corrupted dispatch prediction rejected ({n_self_bad} mismatch)")
         return
+    # the judged DAGs and rule tables tell the full cache key from every weakened one (else: vacuous)
+    for k, v in weak_seen.items():
+        ctx.count(f"dags_where_key_{k}_differs_from_tree_recursion", v)
+        if v == 0 and all(r["tlc"]["outcome"] == "ok" for r in results):
+            raise MachineryError(f"no DAG of the run distinguishes the cache key '{k}' from (node, full context): the dt jobs are vacuous")
+    if not weak_seen:
+        raise MachineryError("no weakened-key job in the configurations")
     for c in cfgs:  # no printed line was lost: TLC printed exactly the DAGs of every shard
         want = expected_dag_counts(c)
         for r in results:
@@ -1071,12 +1472,15 @@ def run(ctx, args):
 def replay(ctx, doc):
     r = doc["replay"]
     env = Env.get()
+    if "job" in r:
+        r["job"] = {"top": 0, "key": "full", **r["job"]}  # replay files written before the dt jobs existed
     if r["kind"] == "behaviour":
         d = Dag(r["dag"])
         obs = run_real(env, d, r["job"])
-        bad = compare(r["predicted"], obs)
+        fields = DT_FIELDS if r["job"]["fn"] == "dt" else FIELDS
+        bad = compare(r["predicted"], obs, fields)
         print("replay", job_name(r["job"]), "dag", d.key())
-        for f in FIELDS:
+        for f in fields:
             print(f"  {f}: real={obs.get(f)} spec={r['predicted'].get(f)}")
         if bad:
             ctx.violation(doc["fingerprint"], f"replay: fields {bad} differ", r)
@@ -1084,9 +1488,22 @@ def replay(ctx, doc):
         d = Dag(r["dag"])
         obs = run_real(env, d, r["job"])
         pf = ["exception:" + obs["exception"]] if "exception" in obs else property_failures(d, r["job"], obs)
+        if r["job"]["fn"] == "dt" and not pf:
+            pf += dt_extra_failures(env, d, r["job"], obs)
         print("replay", job_name(r["job"]), "dag", d.key(), "out", obs["out"], "rterms", obs["rterms"], "violated", pf)
         if pf:
             ctx.violation(doc["fingerprint"], f"replay: {pf}", r)
+    elif r["kind"] == "ctxmf":
+        d = Dag(r["dag"])
+        try:
+            terms, calls = run_ctxmf(env, d, r["job"])
+            bad = ctxmf_failures(r["predicted"], terms, calls)
+        except Exception as e:  # noqa: BLE001
+            terms, calls, bad = f"{type(e).__name__}: {e}", [], ["exception"]
+        print("replay MultiFunction per context", job_name(r["job"]), "dag", d.key(), "terms", terms, "spec", r["predicted"]["rterms"])
+        print("  handler calls", calls, "spec", r["predicted"]["calls"])
+        if bad:
+            ctx.violation(doc["fingerprint"], f"replay: {bad} differ", r)
     elif r["kind"] == "dagtraverser":
         d = Dag(r["dag"])
         terms, ncalls = run_dagtraverser(env, d, r["table"])
